@@ -36,6 +36,11 @@ def cells(tier):
                     # the retried kind spends ~0.6 s on its first attempt before the expiry matters
                     out.append(dict(kind=kind, ttl=ttl + (1.0 if mk == "retried" else 0.0), off=off, mk=mk))
         out.append(dict(kind=kind, ttl=None, off=0.0, mk="immediate"))
+        # the broker call which sets an expired message aside fails once (connection fault): whatever
+        # becomes of the message then, it must not be executed
+        for off in (0.001, 0.5) if kind != "mem" else ():  # the in-memory broker has no call that can fail
+            for mk in KINDS:
+                out.append(dict(kind=kind, ttl=1.0 + (1.0 if mk == "retried" else 0.0), off=off, mk=mk, fault=True))
     return out
 
 
@@ -132,10 +137,15 @@ def execute(cell):
             loop.run_for((start_ns - CLOCK.ns()) / NS)
         if CLOCK.ns() != start_ns and mk != "delayed-after":
             viol.append(("setup", f"could not start the worker at the intended instant ({(CLOCK.ns() - start_ns) / 1e6} ms off)"))
+        if cell.get("fault"):
+            w._call_counts.pop("nack", None)
+            w.fail_calls = {("nack", 0)}
+            if kind == "amqp":
+                w.server.fail_once["nack["] = ConnectionError("injected fault: basic.nack")
         w2 = make_worker(False)
         stop_later((ttl or 1.0) + 3.5)
         st, v = x.run(w2.run(), max_iters=2_000_000)
-        if st != "ok":
+        if st != "ok" and not cell.get("fault"):
             viol.append(("worker-died", f"Worker.run() ended with {st}: {v!r}"))
         x.settle(0.05)
         monitor(loop)
@@ -159,11 +169,11 @@ def execute(cell):
         if first_dead[0] is not None and not entered:
             if ttl is None or first_dead[0] <= expiry_ns:
                 viol.append(("dropped-live", f"message dead-lettered {((expiry_ns or 0) - first_dead[0]) / 1e6:.3f} ms before (or at) its expiry without having been executed"))
-        if not entered and first_dead[0] is None:
+        if not entered and first_dead[0] is None and not cell.get("fault"):
             viol.append(("neither", f"message was neither executed nor dead-lettered within {ttl and ttl + 3.5}s of listening; it is in {places}"))
         if ttl is not None and not entered and start_ns <= expiry_ns and mk == "immediate" and off < 0:
             viol.append(("dropped-live", "a worker was listening before the expiry but the message was not executed"))
-        if first_dead[0] is not None and not entered:
+        if first_dead[0] is not None and not entered and not cell.get("fault"):
             # it must stay retrievable through the dead category
             c = w.broker.get_consumer("q", None, None, MessageCategory.DEAD)
 
@@ -202,10 +212,10 @@ def run_job(job):
         acc.handles += handles
         acc.choice_points += 1
         acc.outcomes.add(digest([cell, summary]))
-        acc.phases[cell["mk"]] += 1
+        acc.phases[cell["mk"] + ("+fault" if cell.get("fault") else "")] += 1
         for sig, what in viol:
             acc.violations.append(dict(
-                signature=f"{cell['kind']} {sig} {cell['mk']}",
+                signature=f"{cell['kind']} {sig} {cell['mk']}" + (" nack-fails" if cell.get("fault") else ""),
                 what=what + f" [cell {cell}]",
                 job=dict(cells=[cell]),
                 detail=summary,
